@@ -12,12 +12,16 @@ for fn in sorted(os.listdir(os.path.join(HERE, "meta"))):
     if fn.endswith(".json"):
         META[fn[:-5]] = json.load(open(os.path.join(HERE, "meta", fn)))
 
+if "--write" not in sys.argv:
+    print("usage: tools/manifest.py --write   (regenerates MANIFEST.json from meta/*.json for the ids listed in meta/REGISTERED)")
+    sys.exit(0)
+REGISTERED = set(open(os.path.join(HERE, "meta", "REGISTERED")).read().split())
 checks = []
 na = []
 for p in props:
     pid = p["id"]
     m = META.get(pid)
-    if m is None or not os.path.exists(os.path.join(HERE, "props", pid + ".py")) or m.get("na"):
+    if m is None or pid not in REGISTERED or not os.path.exists(os.path.join(HERE, "props", pid + ".py")) or m.get("na"):
         na.append({"property_id": pid, "reason": (m or {}).get("na") or "no check registered yet: the generated-search check for this property has not been built/validated (work in progress); see DESIGN.md section 6"})
         continue
     checks.append({
